@@ -232,6 +232,12 @@ func init() {
 				if !yield(C13Case{Part: "umask", Key: k}) {
 					return
 				}
+				// override umasks that lack bits of the base umask (the override's value is the format's umask, not a union)
+				for _, pair := range []string{"027:022", "002:020", "077:007"} {
+					if !yield(C13Case{Part: "umask", Key: k, Key2: pair}) {
+						return
+					}
+				}
 			}
 			for _, k := range Formats {
 				if !yield(C13Case{Part: "contents", Key: k}) {
@@ -461,6 +467,11 @@ func checkC13(env *engine.Env, ci any) engine.Outcome {
 			for _, l := range overridableShape() {
 				if l.Kind == "contents" {
 					continue // the content list needs sources that exist; it has its own part
+				}
+				if l.Kind == "bool" {
+					// a switch the base settings turn on and no override block mentions stays on
+					setDeep(doc, l.Path, true)
+					continue
 				}
 				setDeep(doc, l.Path, c13Value(l, "base"))
 			}
@@ -776,8 +787,12 @@ func checkC13(env *engine.Env, ci any) engine.Outcome {
 	case "umask":
 		// an umask override applies to its own format only; all five packages are built in ONE process
 		list := []model.Entry{{Src: "share/ww.txt", Dst: "/opt/ww.txt"}, {Src: "bin/app", Dst: "/usr/bin/app"}, {Src: "tree", Dst: "/opt/tree", Type: "tree"}}
-		d := Setting{Name: "default", Umask: 0o022}.doc(list, t.Root)
-		d["overrides"] = map[string]any{c.Key: map[string]any{"umask": 0o077}}
+		baseUm, overUm := int64(0o022), int64(0o077)
+		if c.Key2 != "" {
+			fmt.Sscanf(c.Key2, "%o:%o", &baseUm, &overUm)
+		}
+		d := Setting{Name: "default", Umask: os.FileMode(baseUm)}.doc(list, t.Root)
+		d["overrides"] = map[string]any{c.Key: map[string]any{"umask": int(overUm)}}
 		text := d.YAML()
 		order := append([]string{c.Key}, Formats...)
 		for _, f := range order {
@@ -792,9 +807,9 @@ func checkC13(env *engine.Env, ci any) engine.Outcome {
 				viol("merge:undecodable:"+f, "%v", err)
 				continue
 			}
-			um := int64(0o022)
+			um := baseUm
 			if f == c.Key {
-				um = 0o077
+				um = overUm
 			}
 			for _, e := range pkg.Entries {
 				n := t.Get(map[string]string{"/opt/ww.txt": "share/ww.txt", "/usr/bin/app": "bin/app", "/opt/tree/x": "tree/x", "/opt/tree/sub/y": "tree/sub/y"}[e.Path])
@@ -807,11 +822,11 @@ func checkC13(env *engine.Env, ci any) engine.Outcome {
 					if f == c.Key {
 						role = "own-format"
 					}
-					viol("merge:umask:"+role, "umask override 077 for %s, base umask 022: the %s package ships %s with mode %#o, expected %#o", c.Key, f, e.Path, e.Mode, want)
+					viol("merge:umask:"+role, "umask override %#o for %s, base umask %#o: the %s package ships %s with mode %#o, expected %#o", overUm, c.Key, baseUm, f, e.Path, e.Mode, want)
 				}
 			}
 		}
-		out.Key = "umask:" + c.Key
+		out.Key = "umask:" + c.Key + ":" + c.Key2
 	case "contents":
 		// entries of every kind addressed to every packager (and to all), in the base list and in the override
 		// list of Key; Empty: the override block of Key sets only a relation, Key2: a second block does too
